@@ -23,6 +23,7 @@ META = {
     "required_counters": ["requests_parsed", "keys_matched_to_draw"],
     "assumptions": [],
 }
+META["claim"] += " " + 'Also: mixed-case subprotocols; a shared header list reused across connections.'
 
 try:
     from websockets.server import ServerProtocol as _WsServer
